@@ -85,6 +85,10 @@ func scenario(rule string, B, child, first uint64) (lockAddr string, pre *chain.
 		t := pay(1, gid(gPay), 7000)
 		t.Sci[0].Auth = fmt.Sprintf("siglock%d", B)
 		return "B", nil, t, true
+	case "siglock-v1-partial":
+		t := pay(1, gid(gPay), 7000)
+		t.Sci[0].Auth = fmt.Sprintf("siglockP%d", B)
+		return "B", nil, t, true
 	case "uclock-v1-sf":
 		return fmt.Sprintf("T%d", B), nil, chain.AbsTx{Ver: 1, Sfi: []chain.AbsSfIn{{ID: chain.SID{chain.SFO, 0, 0, 2, 0}, Claim: "A", Auth: "ok"}}, Sfo: []chain.AbsOut{{3000, "B"}}, Tag: rule}, true
 	case "form1-windowstart":
